@@ -88,6 +88,43 @@ def run(chk):
             m = {'A': r['A'], 'E': r['E'], 'opts': o, 'observed': got, 'expected': want, 'entry': entry,
                  'final_newline': [nl_a, nl_e], 'preprocess': pre, 'variant': v, 'message': msg[:300]}
             chk.violation(signature(m), dict(m, how='ReferenceTest.assert%s on real files' % entry))
+    # identical content passes under every option combination, at every entry point (incl. blank and whitespace-only
+    # last lines, CR LF line ends, no final newline, other characters str.splitlines treats as line ends)
+    texts = {}
+    for r in rows:
+        texts[json.dumps(r['A'])] = r['A']
+    tlist = [texts[k] for k in sorted(texts)]
+    extra = [['a\x0cb', 'c'], ['x\u2028y'], ['p\x85q', ''], ['v\x0bw'], ['\x1c', 'z']]
+    nid = 0
+    for i, A in enumerate(tlist if thorough else rnd.sample(tlist, min(len(tlist), 150))):
+        for entry in ('string', 'file', 'files'):
+            v = rnd.randrange(3)
+            k = rnd.randrange(tl.NOPTS)
+            o = tl.opt_of(k)
+            for eol, final in (('\n', True), ('\n', False), ('\r\n', True)):
+                got, msg = tl.identical_entry(ref, entry, tl.lines(A, v), tl.kwargs_of(o, v), wd, eol, final, tag=str(nid % 50))
+                nid += 1
+                chk.coverage['replayed_cases'] += 1
+                if got != 'pass':
+                    m = {'A': A, 'E': A, 'opts': o, 'observed': got, 'expected': 'pass', 'entry': entry, 'identical': True,
+                         'line_end': repr(eol), 'final_line_end': final, 'variant': v, 'message': msg[:300]}
+                    sig = signature(m)
+                    sig['clause'] = 'IdenticalContentPasses' if got == 'fail' else 'NoError'
+                    chk.violation(sig, dict(m, how='ReferenceTest.assert%s with the same bytes on both sides' % entry))
+    for ls in extra:
+        for entry in ('string', 'file', 'files'):
+            for k in (0, 3, rnd.randrange(tl.NOPTS)):
+                o = tl.opt_of(k)
+                got, msg = tl.identical_entry(ref, entry, ls, tl.kwargs_of(o, 0), wd, '\n', True, tag='x%d' % (nid % 50))
+                nid += 1
+                chk.coverage['replayed_cases'] += 1
+                if got != 'pass':
+                    m = {'A': ls, 'E': ls, 'opts': o, 'observed': got, 'expected': 'pass', 'entry': entry, 'identical': True,
+                         'message': msg[:300]}
+                    sig = signature(m)
+                    sig['clause'] = 'IdenticalContentPasses' if got == 'fail' else 'NoError'
+                    chk.violation(sig, dict(m, how='ReferenceTest.assert%s with the same bytes on both sides' % entry))
+    chk.coverage['identical_content_entry_cases'] = nid
     r = rows[len(rows) // 2]
     chk.sample({'actual': r['A'], 'reference': r['E'], 'option_order': 'n = ls + 2 rs + 4 isub + 8 rem + 16 patlist + 64 mpc',
                 'spec_bits': r['spec'], 'demanded_bits': r['dem']})
